@@ -243,6 +243,16 @@ def run(props, tier, seed):
             v = verdict(moved, base, w, check_order=flag)
             if v is not None:
                 b.check('C05.check_order-flag', v == expect, w, 'pass=%r expected %r' % (v, expect))
+        # the order of the names inside the option is irrelevant: only the frames' own orders are compared
+        swapped = base[['c', 'b', 'a']]
+        for flag in (['c', 'a'], ['c', 'b', 'a'], ['a', 'c'], (lambda df: list(df)[::-1]), (lambda df: ['c', 'a'])):
+            fl = repr(flag) if not callable(flag) else 'function'
+            for frame, fname, expect in ((base.copy(), 'identical', True), (swapped, 'a and c swapped', False)):
+                w = {'case': 'check_order names in another order than the frame', 'flag': fl, 'frame': fname}
+                b.case(('order-flag-order', fl, fname))
+                v = verdict(frame, base, w, check_order=flag)
+                if v is not None:
+                    b.check('C05.check_order-flag', v == expect, w, 'pass=%r expected %r' % (v, expect))
         retyped = base.assign(a=base['a'].astype('float64'))
         for flag, level, expect in ((None, None, False), (False, None, True), (['b', 'c'], None, True),
                                     (None, 'permissive', True), (None, 'medium', False)):
